@@ -448,7 +448,7 @@ def c16_cases(tier, rng):
         yield {'kind': 'c16-tree', 'seed': rng.randrange(1 << 30), 'dirty': i % 4 != 0}
 
 
-def c16_build(rng, dirty):
+def c16_build(rng, dirty, aux=None):
     """random tree (depth <= 3); requirement edges between arbitrary pairs of objects of the tree
     plus outsiders when dirty, only within one scheduler otherwise"""
     scheds = []
@@ -486,12 +486,27 @@ def c16_build(rng, dirty):
             b = rng.choice(pool)
             if a is not b:
                 a.requires(b)
+    if aux is not None and aux.random() < 0.35 and scheds:
+        # jobs declared with `required=` (a set, a list, a tuple, a single job), the SAME collection object handed to
+        # several constructors, possibly of jobs that end up in different schedulers: what sanitize() does to the
+        # requirements of one job must not reach another's
+        everything = [j for s in scheds for j in s.jobs]
+        for _ in range(aux.randint(1, 3)):
+            home = aux.choice(scheds)
+            pool = (everything + outsiders) if dirty else list(home.jobs)
+            if not pool:
+                continue
+            picked = aux.sample(pool, aux.randint(1, min(3, len(pool))))
+            arg = aux.choice([set, list, tuple, lambda x: x[0]])(picked)
+            for i in range(aux.randint(1, 3)):
+                j = J('decl%d' % aux.randrange(10 ** 6), required=arg)
+                (aux.choice(scheds) if dirty else home).add(j)
     return top, scheds
 
 
 def c16_run(case):
     rng = random.Random(case['seed'])
-    top, scheds = c16_build(rng, case['dirty'])
+    top, scheds = c16_build(rng, case['dirty'], aux=random.Random(case['seed'] + 1))
     before = {id(j): set(j.required) for s in scheds for j in s.jobs}
     need_removal = any(r not in s.jobs for s in scheds for j in s.jobs for r in j.required)
     # (with and without messages: `verbose` only changes what is printed)
@@ -723,9 +738,46 @@ def c19_cases(tier, rng):
     yield {'kind': 'c19-prog', 'prog': [('seq', [('j', 0)], None, None), ('append', 0, [None])]}
     yield {'kind': 'c19-prog', 'prog': [('seq', [('j', 0), ('j', 1)], None, None),
                                         ('requires', 2, [('s', 0)]), ('unrequire_named', 2, [('s', 0)])]}
+    # constructors given `required=`: the collection handed in stays the caller's (placed before the random programs and
+    # drawn from a generator of their own, so that the programs a seed draws stay what they were)
+    aux = random.Random(rng.random())
+    for _ in range(40 if tier == 'quick' else 400):
+        yield {'kind': 'c19-ctor', 'seed': aux.randrange(1 << 30)}
     k = 3000 if tier == 'quick' else 60000
     for _ in range(k):
         yield {'kind': 'c19-prog', 'prog': c19_gen_program(rng, rng.randint(1, 7))}
+
+
+def c19_ctor(case):
+    """two or three jobs built with the same `required=` object; requirements added to or removed from one of them
+    afterwards concern that one only, and the caller's collection is left as it was"""
+    r = random.Random(case['seed'])
+    base = [J('b%d' % i) for i in range(4)] + [Scheduler(label='empty-nested'), Scheduler(J('in'), label='nested')]
+    picked = r.sample(base, r.randint(1, 4))
+    arg = r.choice([set, list, tuple, lambda x: x[0]])(picked)
+    want = set(arg) if isinstance(arg, (set, list, tuple)) else {arg}
+    picked = sorted(want, key=base.index)
+    snapshot = list(arg) if isinstance(arg, (set, list, tuple)) else None
+    mk = r.choice([lambda n: J(n, required=arg), lambda n: Scheduler(J(n + '-in'), required=arg, label=n)])
+    js = [mk('c%d' % i) for i in range(r.randint(2, 3))]
+    for j in js:
+        if set(j.required) != want:
+            return 'built with required=%r: requires %r' % (arg, sorted(map(repr, j.required)))
+    extra = [x for x in base if x not in want]
+    if extra:
+        js[0].requires(r.choice(extra))
+    js[-1].requires(picked[0], remove=True)
+    if snapshot is not None and (len(arg) != len(snapshot) or any(a is not b for a, b in zip(sorted(arg, key=id), sorted(snapshot, key=id)))):
+        return "the collection given as required= was modified by a later requires() on the job"
+    exp = [set(want) for _ in js]
+    if extra:
+        exp[0] |= set(js[0].required) - want
+    exp[-1] = exp[-1] - {picked[0]}
+    for j, e in zip(js, exp):
+        if set(j.required) != e:
+            return 'jobs built with the same required= object share their requirements: %r has %d, expected %d' % (
+                j, len(j.required), len(e))
+    return None
 
 
 class C19Model:
@@ -776,6 +828,8 @@ def c19_realize(a, jobs, seqs):
 
 
 def c19_run(case):
+    if case['kind'] == 'c19-ctor':
+        return c19_ctor(case)
     prog = case['prog']
     # four atomic jobs, an empty nested scheduler (falsy: PureScheduler defines __len__) and a non-empty one: the
     # statement speaks of jobs, and a nested scheduler is a job
@@ -1055,6 +1109,17 @@ def rt_cases(prop):
               [(2, 0), (2, 1), (3, 2)]),
             *[S('top', [J('a', duration=1, yields=i), J('b', duration=1, outcome='raise', yields=j), J('c'), J('d')],
                 [(2, 0), (2, 1), (3, 2)]) for i in range(3) for j in range(3)],
+            # a forever job behind a requirement, in a scheduler that is run twice (flat and nested, with a window too)
+            S('top', [J('first'), J('last', duration=2), J('ticker', duration=None, forever=True)], [(1, 0), (2, 0)], rerun=True),
+            S('top', [J('first'), J('last', duration=2), J('ticker', duration=None, forever=True),
+                      J('t2', duration=None, forever=True)], [(1, 0), (2, 0), (3, 2)], rerun=True, window=3),
+            S('top', [J('first'), J('last', duration=2), S('svc', [J('tk', duration=None, forever=True)], forever=True)],
+              [(1, 0), (2, 0)], rerun=True),
+            # a tolerated failure whose exception does not derive from Exception, under a window that the later jobs need
+            *[S('top', [J('a', outcome='raise', base_exc=True), J('w1', duration=2), J('w2', duration=2), J('w3', duration=2),
+                        J('w4', duration=2)], [(1, 0), (2, 0), (3, 0), (4, 0)], window=w) for w in (1, 2, 3)],
+            S('top', [S('n', [J('a', outcome='raise', base_exc=True), J('w1', duration=2), J('w2', duration=2)],
+                        [(1, 0), (2, 0)], window=1), J('z')], [(1, 0)]),
             # a forever job that ends by itself in the same batch as a regular job while another regular job runs on
             *[S('top', [J('f', duration=1, forever=True, outcome=o, yields=i), J('a', duration=1, yields=j), J('b', duration=3),
                         J('c')], [(3, 2)]) for o in ('ret', 'raise') for i in range(2) for j in range(2)],
@@ -1070,7 +1135,20 @@ def rt_cases(prop):
         ]
         for sp in fixed:
             yield {'kind': 'rt', 'prop': prop, 'spec': sp}
+        if prop == 'C14':
+            for val in ('plain', 'none', 'pending-future', 'done-future', 'failed-future', 'task', 'failing-task', 'coroutine'):
+                for crit in (False, True):
+                    for nested in (False, True):
+                        yield {'kind': 'c14-job', 'prop': prop, 'value': val, 'critical': crit, 'nested': nested}
         if prop == 'C06':
+            # a tolerated job that returns / raises something that does not derive from Exception, under a window
+            for w in (1, 2, 3):
+                for wrap in (False, True):
+                    def mkb(o):
+                        inner = S('n', [J('a', outcome=o, base_exc=True), J('w1', duration=2), J('w2', duration=2),
+                                        J('w3', duration=2)], [(1, 0), (2, 0), (3, 0)], window=w)
+                        return S('top', [inner, J('y', duration=4)]) if wrap else dict(inner, name='top')
+                    yield {'kind': 'rt-c06', 'prop': prop, 'spec': mkb('ret'), 'spec2': mkb('raise'), 'flipped': ['a']}
             # a critical scheduler holding a tolerated job (returning / raising) and a critical job that raises later
             # or in the same batch, for several iteration orders of its set of jobs, nested and at top level
             for k_ in range(6):
@@ -1138,8 +1216,90 @@ def rt_cases(prop):
     return gen
 
 
+def c14_job_run(case):
+    """jobs built from a coroutine object (`Job(coro)`), whose body returns an ordinary value or an object that happens to
+    be awaitable (a future, a task it launched, a coroutine object): once the body has returned the job is done and
+    result() is the very object the body returned -- sampled by a successor job and again after the run"""
+    import asyncio
+    from asynciojobs import Job
+    kind, crit, nested = case['value'], case['critical'], case['nested']
+    loop = asyncio.new_event_loop()
+    asyncio.set_event_loop(loop)
+    loop.set_exception_handler(lambda l, c: None)
+    seen, made = {}, []
+
+    async def later(d, exc=None):
+        await asyncio.sleep(d)
+        if exc is not None:
+            raise exc
+        return 'background-over'
+
+    async def body():
+        await asyncio.sleep(0)
+        if kind == 'plain':
+            v = ('a', 'value')
+        elif kind == 'none':
+            v = None
+        elif kind == 'pending-future':
+            v = loop.create_future()
+        elif kind == 'done-future':
+            v = loop.create_future()
+            v.set_result('x')
+        elif kind == 'failed-future':
+            v = loop.create_future()
+            v.set_exception(RuntimeError('background failure'))
+            v.exception()
+        elif kind == 'task':
+            v = asyncio.ensure_future(later(0.05))
+        elif kind == 'failing-task':
+            v = asyncio.ensure_future(later(0.02, RuntimeError('background failure')))
+        else:
+            v = later(0)
+        made.append(v)
+        return v
+
+    launcher = Job(body(), label='launcher', critical=crit)
+
+    async def probe():
+        seen['done'] = launcher.is_done()
+        seen['same'] = launcher.is_done() and launcher.result() is made[0]
+        seen['exc'] = launcher.raised_exception()
+    succ = Job(probe(), label='probe', required=launcher)
+    inner = Scheduler(launcher, succ, label='inner')
+    top = Scheduler(inner, label='top') if nested else inner
+    err = None
+    try:
+        ok = loop.run_until_complete(asyncio.wait_for(top.co_run(), 1.0))
+        if ok is not True:
+            err = 'the run returned %r although no job raised (%s)' % (ok, top.why())
+        elif not seen.get('done'):
+            err = 'a job requiring the launcher started while launcher.is_done() was %r' % seen.get('done')
+        elif not seen['same'] or launcher.result() is not made[0]:
+            err = 'result() is not the object the body returned (a %s)' % kind
+        elif seen['exc'] is not None or launcher.raised_exception() is not None:
+            err = 'raised_exception() reports %r for a body that returned' % (launcher.raised_exception(),)
+    except asyncio.TimeoutError:
+        err = 'the run does not end: the job whose body returned a %s never counts as done' % kind
+    except Exception as exc:                                      # pylint: disable=broad-except
+        err = 'the run raised %r although no job body raised' % (exc,)
+    finally:
+        for v in made:
+            if asyncio.iscoroutine(v):
+                v.close()
+            elif isinstance(v, asyncio.Future) and not v.done():
+                v.cancel()
+        try:
+            loop.run_until_complete(asyncio.sleep(0.03))
+        finally:
+            asyncio.set_event_loop(None)
+            loop.close()
+    return err
+
+
 def rt_run(case):
     from replay import runtime as RT
+    if case['kind'] == 'c14-job':
+        return c14_job_run(case)
     if case['kind'] == 'rt-c06':
         return RT.o_c06(case['spec'], case['spec2'], case['flipped'])
     if case['kind'] == 'rt-c10':
@@ -1171,6 +1331,7 @@ PROPS = {
     'C20': (c20_cases, c20_run, 'every label of a 27-string alphabet (quotes, newlines, DOT punctuation, keywords, non-ASCII) at every '
             'position of a fixed tree, all flag assignments, all requirement DAGs over up to 3 (quick) / sampled 4 (thorough) members '
             'each of 7 shapes (atomic, empty / 1-job / 2-job nested schedulers, depth-3 nestings), 400 / 6000 random trees up to depth 3; '
+            '8 + 150 / 3000 trees queried, then edited, then drawn (nothing an earlier call computed may show); '
             'dot_format() parsed by an independent DOT-subset parser and compared with the tree, list() output read back; '
             'non-trivial = every distinct tree'),
     'C15': (c15_cases, c15_run, 'all loop-free digraphs up to 4 (quick) / sampled 5 (thorough) nodes at three '
@@ -1180,14 +1341,16 @@ PROPS = {
             'requirement edges and (bypass) the transitive must-run-before relation; non-trivial = at least one edge'),
     'C19': (c19_cases, c19_run, 'random programs of 1-7 construction operations over 6 jobs, 2 schedulers, nested '
             'list/tuple/set arguments up to depth 3, interpreted by the library and by a reference model of the documented '
-            'semantics, compared after every operation; non-trivial = every distinct program'),
+            'semantics, compared after every operation; 40 / 400 constructor cases (one collection given as required= to several '
+            'constructors stays the caller\'s and is not shared); non-trivial = every distinct program'),
     **{p: (rt_cases(p), rt_run, 'hand-written scenarios for the situations the statement singles out, then seeded random '
            'scheduler trees (depth <= 2, <= 4 members per level, windows, timeouts, critical/forever flags, raising jobs, '
            'zero durations, slow cancellation and shutdown handlers) run on the real code in virtual time and judged by a '
            'trace oracle written from the statement; non-trivial = every distinct scenario')
        for p in ('C01', 'C02', 'C03', 'C04', 'C05', 'C06', 'C07', 'C08', 'C09', 'C10', 'C11', 'C12', 'C13', 'C14')},
     'C16': (c16_cases, c16_run, 'random scheduler trees of depth <= 3 with requirement edges inside schedulers, and (3 in 4) '
-            'edges to outsiders, siblings, parents, children, nested schedulers; non-trivial = every case (seeded tree)'),
+            'edges to outsiders, siblings, parents, children, nested schedulers; a third of the trees also hold jobs declared with '
+            'required= collections, the same object given to several constructors; non-trivial = every case (seeded tree)'),
     'C17': (c17_cases, c17_run, 'all DAGs up to 4 nodes with all start sets of size <= 2, random DAGs up to 8/12 '
             'nodes with forever flags, random trees for iterate_jobs, edit sequences; non-trivial = at least one edge or nested scheduler'),
 }
